@@ -83,6 +83,20 @@ class SymChar(object):
         self.dom = frozenset(dom)
 
 
+# static domains of symbolic characters (z3 constant id -> frozenset of codes); lets equality with a concrete character that is
+# outside the domain be decided without the solver (the domain is also asserted in the solver by whoever registers it)
+CHAR_DOMAIN = {}
+
+
+def _dom(c):
+    if isinstance(c, int):
+        return None
+    try:
+        return CHAR_DOMAIN.get(c.get_id())
+    except Exception:
+        return None
+
+
 def char_eq(c, other):
     """equality of a slot character (int | BitVec) with int | BitVec | SymChar; returns bool or z3 Bool"""
     if isinstance(other, SymChar):
@@ -90,9 +104,20 @@ def char_eq(c, other):
             if c not in other.dom:
                 return False
             return other.var == c
+        d = _dom(c)
+        if d is not None and not (d & other.dom):
+            return False
         return c == other.var
     if isinstance(c, int) and isinstance(other, int):
         return c == other
+    if isinstance(other, int):
+        d = _dom(c)
+        if d is not None and other not in d:
+            return False
+    elif isinstance(c, int):
+        d = _dom(other)
+        if d is not None and c not in d:
+            return False
     return bv(c) == bv(other)
 
 
